@@ -53,6 +53,14 @@ def generate(rng, tier, index):
     triples = gen.gen_graph(rng, n_nodes=n_nodes, n_classes=rng.randint(1, 3), n_props=rng.randint(2, 6),
                             bnodes=rng.random() < 0.25, prop_namespaces=tuple(rng.sample(NS_POOL, rng.randint(1, 4))),
                             density=rng.choice([0.5, 0.8]), kinds=("node", "str", "int", "lang", "date", "iri", "iri2", "cdt"))
+    if rng.random() < 0.15:
+        # a predicate whose local name holds a %-escaped separator: still a direct child of its namespace
+        preds = sorted({t[1][1] for t in triples if t[1][1] != gen.RDF_TYPE})
+        if preds:
+            old = rng.choice(preds)
+            cut = max(old.rfind("/"), old.rfind("#")) + 1
+            new = old[:cut] + rng.choice(["a%2F", "a%23", "deep%2F"]) + old[cut:]
+            triples = [(s, gen.iri(new) if p[1] == old else p, o) for (s, p, o) in triples]
     tp = gen.CUSTOM_TYPE if rng.random() < 0.12 else gen.RDF_TYPE
     triples = gen.retype(gen.ensure_class(triples), tp)
     classes = gen.classes_of(triples, tp)
@@ -263,6 +271,20 @@ def extra_scenarios(tier, base):
     for cap in ([255, 257, 310] if tier == "quick" else [1, 128, 255, 256, 257, 258, 300, 310, 319, 320, 321, 1000]):
         for tgt in ({"all_classes_mode": True}, {"target_classes": [gen.EX + "A", gen.EX + "B"]}):
             out.append(("bigcap-%d-%s" % (cap, "all" if "all_classes_mode" in tgt else "tc"), {
+                "half": "cap", "graph": gen.L(triples), "options": {"instances_report_mode": "mixed"}, "ns": dict(gen.BASE_NS),
+                "cap": cap, "target": tgt, "channel": "file", "orders": [order, order]}))
+    # many small classes (anything keyed on a digest of the class name meets collisions here)
+    triples = []
+    n_cls = 160 if tier == "quick" else 700
+    for c in range(n_cls):
+        for j in range(3):
+            n = gen.iri(gen.EX + "m%d_%d" % (c, j))
+            triples.append((n, gen.iri(gen.RDF_TYPE), gen.iri(gen.EX + "K%d" % c)))
+            triples.append((n, gen.iri(gen.EX + "p%d" % (c % 4)), gen.lit("v%d" % j, gen.XSD + "string")))
+    order = list(range(len(triples)))
+    for cap in (1, 2):
+        for tgt in ({"all_classes_mode": True}, {"target_classes": [gen.EX + "K%d" % c for c in range(n_cls)]}):
+            out.append(("manyclasses-%d-%d-%s" % (n_cls, cap, "all" if "all_classes_mode" in tgt else "tc"), {
                 "half": "cap", "graph": gen.L(triples), "options": {"instances_report_mode": "mixed"}, "ns": dict(gen.BASE_NS),
                 "cap": cap, "target": tgt, "channel": "file", "orders": [order, order]}))
     return out
